@@ -199,8 +199,8 @@ func (c *Config) Get(format string) (info *Info, err error) {
 	info.RPM.Signature.KeyID = cloneString(info.RPM.Signature.KeyID)
 	info.APK.Signature.KeyID = cloneString(info.APK.Signature.KeyID)
 	override, ok := c.Overrides[format]
-	if !ok {
-		// no overrides
+	if !ok || override == nil {
+		// no overrides (a block with nothing under it overrides nothing)
 		return info, nil
 	}
 	if err = mergo.Merge(&info.Overridables, override, mergo.WithOverride); err != nil {
@@ -273,6 +273,10 @@ func (c *Config) expandEnvVars() {
 	c.Platform = os.Expand(c.Platform, c.envMappingFunc)
 	c.Arch = os.Expand(c.Arch, c.envMappingFunc)
 	for or := range c.Overrides {
+		if c.Overrides[or] == nil {
+			// "deb:" with nothing under it decodes to a nil block
+			continue
+		}
 		c.Overrides[or].Conflicts = c.expandEnvVarsStringSlice(c.Overrides[or].Conflicts)
 		c.Overrides[or].Depends = c.expandEnvVarsStringSlice(c.Overrides[or].Depends)
 		c.Overrides[or].Replaces = c.expandEnvVarsStringSlice(c.Overrides[or].Replaces)
